@@ -1050,6 +1050,8 @@ def weave(unit_path):
                 text, first_line = outline_loop_body(text, first_line, int(opts['loop']), opts['name'], o_params, o_caps, rel)
                 qual = qual + '#loop%s(%s)' % (opts['loop'], opts['name'])
                 info['rules'].add('D6')
+            if d != 'stub':
+                info.setdefault('fn_texts', []).append((rel, text))
             fw = FnWeaver(text, rel, first_line, qual, trel)
             if not opts.get('trait'):
                 fw.publicise()
@@ -1169,6 +1171,40 @@ def weave(unit_path):
                                               safety=safety, contracted=has_spec, lost=list(fw.lost)))
         else:
             raise WeaveError('%s:%d: unknown directive %s' % (trel, i + 1, d))
+    # D20: top-level constants of the same source file that an extracted (non-stub) function refers to and the unit did not extract
+    # itself are extracted automatically (e.g. a bound newly introduced next to the function); emitted just before `} // verus!`
+    text0 = out.finish()
+    auto = []
+    have = set(re.findall(r'\bconst\s+([A-Z][A-Z0-9_]*)\b', text0)) | set(re.findall(r'\blet\s+([A-Z][A-Z0-9_]*)\b', text0))
+    for (rel_f, body_f) in info.get('fn_texts', []):
+        for nm in sorted(set(re.findall(r'\b([A-Z][A-Z0-9_]{2,})\b', body_f))):
+            if nm in have:
+                continue
+            try:
+                ctext, cline = extract_item(rel_f, 'const', nm)
+            except Exception:
+                continue
+            src_c = load_repo(rel_f)
+            # top-level only
+            if not re.search(r'^(pub(\([a-z]+\))?\s+)?const\s+%s\b' % nm, ctext.strip()):
+                continue
+            have.add(nm)
+            auto.append((rel_f, nm, publicise_item(strip_attrs_and_docs(ctext)), cline))
+            info['hashes']['const %s %s' % (rel_f, nm)] = hashlib.sha256(ctext.encode()).hexdigest()
+            info['items'].append(dict(kind='const', file=rel_f, name=nm, line=cline, auto=True))
+            info['rules'].add('D20')
+    if auto:
+        k = len(out.lines) - 1
+        while k >= 0 and not out.lines[k].startswith('} // verus!'):
+            k -= 1
+        if k >= 0:
+            ins_lines, ins_origin = [], []
+            for (rel_f, nm, ctext, cline) in auto:
+                for off, ln in enumerate(ctext.split('\n')):
+                    ins_lines.append(ln)
+                    ins_origin.append(dict(kind='repo', file=rel_f, line=cline + off, fn=None))
+            out.lines[k:k] = ins_lines
+            out.origin[k:k] = ins_origin
     text = out.finish()
     info['text'] = text
     info['origin'] = out.origin
